@@ -395,6 +395,114 @@ def h_coll_ops(c0: bytes, c1: bytes, v0: bytes, ni: int, text: str, mb: int) -> 
     """
     return run(body_coll_ops, c0, c1, v0, ni, text, mb)
 
+
+# ------------------------------------------------------------------ two requests on one app, exhaustive over a token menu
+TOK = [b"", b"xa", b"ya", b"xb", b"Na", b"!a", b"x-"]   # absent / uid a (two contents) / uid b / normalised / invalid / no uid
+REQS = [("PUT", 0), ("PUT", 1), ("PUT", 2), ("DELETE", 0), ("DELETE", 2), ("POST", None), ("PUTV", None), ("PUTT", None)]
+
+
+def _one_request(app, S, A, req, tok, cond, wsgi, prefix, kind):
+    """Issue one request and return (ok?, class, S', A') against the specification."""
+    method, t = req
+    name = WNAMES[t] if t is not None else None
+    if method == "PUTV":   # a vCard into the address book: byte-identical storage
+        r = mweb.call(app, "PUT", mweb.AB + "/n.vcf", body=tok, content_type="text/vcard", prefix=prefix, wsgi=wsgi)
+        want, A2 = SP.put(A, "n.vcf", tok)
+        return (r.status_class == ("2xx" if want == "ok" else "412"), "PUTV:" + want, S, A2 if want == "ok" else A)
+    if method == "PUTT":   # a file of another kind into the calendar: stored byte-identical, never parsed
+        r = mweb.call(app, "PUT", mweb.CAL + "/n.txt", body=tok, content_type="application/octet-stream", prefix=prefix, wsgi=wsgi)
+        want, S2 = SP.put(S, "n.txt", tok)
+        return (r.status_class == "2xx", "PUTT:" + want, S2, A)
+    if method == "POST":
+        r = mweb.call(app, "POST", mweb.CAL + "/", body=tok, content_type="text/calendar", prefix=prefix, wsgi=wsgi)
+        want, _ = SP.put(S, "\x00new.ics", tok)
+        if want != "ok":
+            return (r.status_class == "412", "POST:" + want, S, A)
+        if r.status_class != "2xx":
+            return (False, "POST:ok", S, A)
+        obs = _coll_state(app, mweb.CAL, wsgi, prefix)
+        new = [n for n in (obs or {}) if n not in S]
+        if len(new) != 1:
+            return (False, "POST:ok", S, A)
+        S2 = dict(S)
+        S2[new[0]] = SP.norm("x.ics", tok)
+        return (True, "POST:ok", S2, A)
+    cur = ('"' + mstore.expected_etag(kind, S[name]) + '"') if name in S else None
+    im = inm = None
+    if cond == 1:
+        im = cur if cur is not None else '"zz"'
+    elif cond == 2:
+        im = '"zz"'
+    elif cond == 3:
+        inm = "*"
+    elif cond == 4:
+        im = "*"
+    headers = ([("If-Match", im)] if im is not None else []) + ([("If-None-Match", inm)] if inm is not None else [])
+    path = mweb.CAL + "/" + name
+    if method == "PUT":
+        r = mweb.call(app, "PUT", path, headers=headers, body=tok, content_type="text/calendar", prefix=prefix, wsgi=wsgi)
+        if rfc7232.decide("PUT", cur, im, inm) == "412":
+            return (r.status_class == "412", "PUT:412", S, A)
+        o, S2 = SP.put(S, name, tok)
+        return (r.status_class == {"ok": "2xx", "invalid": "412", "duplicate": "412"}[o], "PUT:" + o, S2, A)
+    r = mweb.call(app, "DELETE", path, headers=headers, prefix=prefix, wsgi=wsgi)
+    d = rfc7232.decide("DELETE", cur, im, None)
+    if d in ("404", "412"):
+        return (r.status_class == d, "DELETE:" + d, S, A)
+    o, S2 = SP.delete(S, name)
+    return (r.status_class == "2xx", "DELETE:ok", S2, A)
+
+
+BODIES = [b"", b"xa", b"ya", b"xb", b"Na", b"!a"]
+
+
+def body_web_menu(i0, r1, k1):
+    """Two requests (PUT / DELETE of calendar members with every kind of condition, POST add-member, PUT of a vCard
+    into the address book, PUT of a plain file into the calendar) through ONE long-lived app on a calendar + address
+    book in a state drawn from a menu of body tokens, on a tree or a bare store: after each request, and after a
+    restart, GET / listing of BOTH collections equal the specification (404 for what was deleted or never created).
+    The solver chooses the state and the first request; every second request, and the conditions of both, are
+    looped over inside (8 x 6 x 5 x 5)."""
+    from xv.core import picks, untraced
+    c0, req1, tok1 = picks((i0, r1, k1), (TOK, REQS, BODIES))
+    with untraced():
+        kind, wsgi, prefix = ctx.PART
+        import xandikos.web as Wb
+        S0 = _store.pre_state([c0, b"xb", b""], 2)
+        if not SP.invariant(S0):
+            return (True, "pre-invalid")
+        last = "none"
+        for req2 in REQS:
+            for tok2 in (BODIES if req2[0] not in ("DELETE",) else BODIES[:1]):
+                for cond1 in range(5 if req1[0] in ("PUT", "DELETE") else 1):
+                    for cond2 in range(5 if req2[0] in ("PUT", "DELETE") else 1):
+                        S, A = dict(S0), {"c.vcf": b"v1"}
+                        mweb.fresh_world(S, A, kind=kind)
+                        app = mweb.make_app()
+                        for (req, tok, cond) in ((req1, tok1, cond1), (req2, tok2, cond2)):
+                            ok, cls, S, A = _one_request(app, S, A, req, tok, cond, wsgi, prefix, kind)
+                            last = cls
+                            if not ok:
+                                return (False, cls)
+                            if _coll_state(app, mweb.CAL, wsgi, prefix) != S or _coll_state(app, mweb.AB, wsgi, prefix) != A:
+                                return (False, cls + ":state")
+                        Wb.open_store_from_path.cache_clear()
+                        app = mweb.make_app()
+                        if _coll_state(app, mweb.CAL, wsgi, prefix) != S or _coll_state(app, mweb.AB, wsgi, prefix) != A:
+                            return (False, last + ":state-after-restart")
+                        for n in WNAMES:
+                            if n not in S and mweb.call(app, "GET", mweb.CAL + "/" + n, prefix=prefix, wsgi=wsgi).status_class != "404":
+                                return (False, last + ":not-404")
+        return (True, "first:" + req1[0])
+
+
+def h_web_menu(i0: int, r1: int, k1: int) -> bool:
+    """
+    pre: 0 <= i0 < len(TOK) and 0 <= r1 < len(REQS) and 0 <= k1 < len(BODIES)
+    post: _
+    """
+    return run(body_web_menu, i0, r1, k1)
+
 _B = {"quick": {"n": 2, "blen": 2}, "thorough": {"n": 3, "blen": 3}}
 _WEB_PARTS_Q = [("PUT", False, "/"), ("PUT", True, "/dav/"), ("DELETE", False, "/"), ("DELETE", True, "/"),
                 ("POST", False, "/"), ("POST", True, "/dav/"), ("GET", True, "/")]
@@ -458,6 +566,23 @@ HARNESSES = [
                      "xandikos.web.StoreBasedCollection.destroy", "xandikos.store.git.GitStore.set_type",
                      "xandikos.store.git.GitStore.set_description", "xandikos.store.config.FileBasedCollectionMetadata._save",
                      "xandikos.store.git.TreeGitStore.create"]),
+    Harness("web_menu", h_web_menu, body_web_menu,
+            classes=[("first:PUT", ("tree", False, "/")), ("first:PUT", ("bare", True, "/dav/"))], twin_budget={"quick": 60, "thorough": 120},
+            parts={"quick": [("tree", False, "/"), ("bare", True, "/dav/"), ("tree", True, "/"), ("bare", False, "/")],
+                   "thorough": [(k, w, p) for k in ("tree", "bare") for (w, p) in ((False, "/"), (True, "/dav/"), (True, "/"), (False, "/dav/"))]},
+            bounds=_B, budget={"quick": 150, "thorough": 1500}, per_path_timeout={"quick": 60, "thorough": 60},
+            describe="two requests through one long-lived app (PUT / DELETE under all five condition kinds, POST, a vCard "
+                     "PUT into the address book, a plain-file PUT into the calendar) from a state and with bodies drawn "
+                     "from a menu of 7 tokens (absent, two contents of one UID, another UID, to-be-normalised, invalid, no "
+                     "UID): status and the GET / listing state of both collections == specification after each request "
+                     "and after a restart; the solver chooses state and first request, every second request and all conditions "
+                     "are looped inside (exhaustive in the thorough tier); part = (store kind, WSGI?, prefix)",
+            encodes=["xandikos.webdav.PutMethod.handle", "xandikos.webdav.DeleteMethod.handle", "xandikos.webdav.PostMethod.handle",
+                     "xandikos.webdav._do_get", "xandikos.webdav.PropfindMethod.handle", "xandikos.web.ObjectResource.set_body",
+                     "xandikos.web.StoreBasedCollection.create_member", "xandikos.web.StoreBasedCollection.delete_member",
+                     "xandikos.store.git.BareGitStore._import_one", "xandikos.store.git.TreeGitStore._import_one",
+                     "xandikos.store.git.GitStore._check_duplicate", "xandikos.store.git.GitStore._scan_uids",
+                     "xandikos.web.open_store_from_path"]),
     Harness("web_step", h_web_step, body_web_step,
             classes=[("PUT:2xx", ("PUT", False, "/")), ("PUT:412", ("PUT", True, "/dav/")), ("DELETE:2xx", ("DELETE", False, "/")),
                      ("DELETE:404", ("DELETE", True, "/")), ("DELETE:412", ("DELETE", False, "/")),
